@@ -53,6 +53,9 @@ type Case struct {
 	Doc   *htmlw.Doc `json:"doc"`
 	Order []Req      `json:"order"`
 	HTM   bool       `json:"htm,omitempty"` // tabula.Open("x.htm") instead of "x.html"
+	// EmptySpans: that many <span/> tags are appended behind the document (XHTML page anchors / inline SVG shapes
+	// are written like this by the thousand); they hold no text and no attributes
+	EmptySpans int `json:"empty_spans,omitempty"`
 }
 
 // ---------------------------------------------------------------------------
@@ -426,6 +429,9 @@ func checkCase(c Case) error {
 	if err != nil {
 		return err
 	}
+	if c.EmptySpans > 0 {
+		src = append(append([]byte{}, src...), []byte(strings.Repeat("<span/>", c.EmptySpans))...)
+	}
 	ex := expectOf(c.Doc)
 
 	// entry point 1: OpenReader, a fresh reader per mode (the baseline)
@@ -596,6 +602,9 @@ func genCase(t *rapid.T) Case {
 		})
 	}
 	c.HTM = rapid.Bool().Draw(t, "htm")
+	if rapid.IntRange(0, 24).Draw(t, "emptySpans") == 12 {
+		c.EmptySpans = rapid.SampledFrom([]int{2100, 2600}).Draw(t, "nEmptySpans")
+	}
 	return c
 }
 
@@ -661,6 +670,9 @@ func meta(c Case) vr.Meta {
 	}
 	if first > 0 {
 		labels = append(labels, "first-request-not-None")
+	}
+	if c.EmptySpans > 0 {
+		labels = append(labels, "thousands-of-empty-spans")
 	}
 	return vr.Meta{
 		FP:         string(src) + fmt.Sprint(c.Order, c.HTM),
